@@ -1,5 +1,6 @@
 use crate::engine::{Report, Tier};
 
+pub mod c02;
 pub mod c03;
 pub mod c04;
 pub mod c11;
@@ -11,6 +12,7 @@ pub mod c19;
 
 pub fn run(id: &str, tier: Tier) -> Option<Report> {
     Some(match id {
+        "C02" => c02::run(tier),
         "C03" => c03::run(tier),
         "C04" => c04::run(tier),
         "C11" => c11::run(tier),
